@@ -118,7 +118,7 @@ type built struct {
 // prepare instruments the current working tree of /repo (cached by source
 // hash) and builds the harness test binary against it.
 func prepare() *built {
-	opts := instrument.Options{RepoDir: repoDir, SimrtDir: filepath.Join(verifDir, "simrt"), StmtPkgs: []string{"bgzf/cache"}}
+	opts := instrument.Options{RepoDir: repoDir, SimrtDir: filepath.Join(verifDir, "simrt"), StmtPkgs: []string{"bgzf/cache", "+hts/bgzf"}}
 	hash, err := instrument.SourceHash(opts)
 	if err != nil {
 		die(2, "hashing sources: %v", err)
